@@ -444,7 +444,7 @@ def impl_run(texts, backup=True, fault=None, keys=None):
                                                                       "-u", os.path.join(d, newpub), "-i", os.path.join(d, "priv1"),
                                                                       "-c", os.path.join(d, "pub1")] + paths
         old = signal.signal(signal.SIGALRM, _alarm)
-        signal.setitimer(signal.ITIMER_REAL, 60)
+        signal.setitimer(signal.ITIMER_REAL, 600)   # wall clock (the run waits for eyaml subprocesses); generous: a loaded machine must not look like a hang
         devnull = open(os.devnull, "w")
         so, se = sys.stdout, sys.stderr
         sys.stdout = sys.stderr = devnull
@@ -455,7 +455,7 @@ def impl_run(texts, backup=True, fault=None, keys=None):
             except SystemExit as e:
                 out["rc"] = e.code if isinstance(e.code, int) else (0 if e.code is None else 1)
             except Timeout:
-                out["rc"] = "timeout"
+                raise core.Infra("eyaml-rotate-keys did not finish within 600 s (machine overloaded?)")
             except Exception as e:  # noqa
                 out["rc"] = "crash:%s@%s" % (type(e).__name__, core.crash_site(e))
         finally:
